@@ -224,7 +224,7 @@ def tie_shape(classes):
 
 
 INT_ENC = ["int", "int_relabel"]
-ALL_ENC = ["int", "int_relabel", "float", "mixed", "bool", "huge", "zero_neg", "scores", "scores_float", "omitted"]
+ALL_ENC = ["int", "int_relabel", "float", "mixed", "bool", "huge", "zero_neg", "small_ints", "close", "scores", "scores_small", "scores_float", "omitted"]
 
 
 @st.composite
@@ -251,6 +251,31 @@ def _increasing(draw, m, kind):
             out.append(cur)
             cur -= g
         return list(reversed(out))
+    if kind == "small_ints":
+        # dense small integers around zero: different games keep producing the same / neighbouring value tuples
+        # (-2, -1), (-1, -1), (-1, 0), ... - what a value-keyed cache or a hash-keyed lookup would confuse
+        hi = max(2, m - 2)
+        return sorted(draw(st.lists(st.integers(-3, hi), min_size=m, max_size=m, unique=True)))
+    if kind == "close":
+        # distinct values that are *relatively* very close: a few ulps or 1e-10 relative apart at a large (or tiny) magnitude
+        base = draw(st.sampled_from([1.7e9, 1e12, 2.0 ** 52, 1.0, 1e-3, 1e15, 123456.789, 1e300, 1e-300]))
+        base = base * draw(st.sampled_from([1.0, -1.0]))
+        mode = draw(st.integers(0, 2))
+        out = [base]
+        for _ in range(m - 1):
+            cur = out[-1]
+            if mode == 0:
+                nxt = cur
+                for _ in range(draw(st.integers(1, 4))):
+                    nxt = math.nextafter(nxt, math.inf)
+            elif mode == 1:
+                nxt = cur + abs(cur) * draw(st.sampled_from([1e-10, 3e-10, 1e-12, 1e-9]))
+            else:
+                nxt = cur + max(1.0, abs(cur) * 2.0 ** -52)
+            if not nxt > cur:
+                nxt = math.nextafter(cur, math.inf)
+            out.append(nxt)
+        return out
     if kind == "huge":
         pool = [-10 ** 30, -1e300, -2 ** 53 - 1, -10 ** 18, -1.5, 0, 0.5, 2 ** 53 + 1, 10 ** 18, 1e300, 10 ** 30 + 1]
         pool = sorted(set(pool))
@@ -286,7 +311,7 @@ def encodings(draw, classes, kinds=ALL_ENC):
     kind = draw(st.sampled_from(allowed))
     if kind == "omitted":
         return {}, kind
-    base = {"scores": "int_relabel", "scores_float": "float"}.get(kind, kind)
+    base = {"scores": "int_relabel", "scores_float": "float", "scores_small": "small_ints"}.get(kind, kind)
     vals = draw(_increasing(m, base))
     for a, b in zip(vals, vals[1:]):
         assert a < b
@@ -294,7 +319,7 @@ def encodings(draw, classes, kinds=ALL_ENC):
     enc = [_alias(draw, vals[c], mixed) for c in classes]
     if kind == "mixed" and draw(st.booleans()):
         enc = [(_alias(draw, float(v), "mixed") if isinstance(v, int) and not isinstance(v, bool) and abs(v) < 2 ** 53 else v) for v in enc]
-    if kind in ("scores", "scores_float"):
+    if kind in ("scores", "scores_float", "scores_small"):
         return {"scores": [-v for v in enc]}, kind
     return {"ranks": enc}, kind
 
